@@ -250,7 +250,7 @@ func c15Probe(p *run.Part, cfg *seqx.Config, seen *sync.Map, maxSize int) func(w
 func c15Searches(p *run.Part, tier string) []*seqx.Search {
 	depth, maxSize := 4, 6
 	if tier == "thorough" {
-		depth, maxSize = 5, 7
+		depth, maxSize = 6, 8
 	}
 	dl := Budget(tier)
 	seen := &sync.Map{}
@@ -264,7 +264,7 @@ func c15Searches(p *run.Part, tier string) []*seqx.Search {
 func init() {
 	register(&Check{ID: "C15", Run: func(p *run.Part, tier string) {
 		p.Rule = "cases are Iterator calls (replica state, upper, lower, amount), replica states de-duplicated on (entry set, heads); non-trivial = distinct calls whose expected output is a proper non-empty part of the log"
-		p.Assume("replica states from the 3-replica BFS up to the stated depth with <= 6 (quick) / 7 (thorough) entries; strict orderings only; lower bounds inside the selected range only; a single exclusive upper bound (the statement's scope); the iterator is not shared between goroutines here (C13 covers that)")
+		p.Assume("replica states from the 3-replica BFS up to the stated depth with <= 6 (quick) / 8 (thorough) entries; strict orderings only; lower bounds inside the selected range only; a single exclusive upper bound (the statement's scope); the iterator is not shared between goroutines here (C13 covers that)")
 		runSearches(p, c15Searches(p, tier))
 		c15Gapped(p, tier)
 		p.Sample(8, c15Case{Config: "def3", Path: []seqx.Op{{K: "app", A: 0}, {K: "app", A: 1}, {K: "join", A: 0, B: 1}, {K: "app", A: 0}}, Replica: 0, Upper: "lte", U: []int{2, 1}, Lower: "gte", G: 0, Amount: 2})
